@@ -299,6 +299,9 @@ def environ_for(kind, name):
         data = b'x' * 5000 + name.encode()
         env.update(PATH_INFO='/body/' + name, REQUEST_METHOD='POST', CONTENT_LENGTH=str(len(data)))
         env['wsgi.input'] = io.BytesIO(data)
+    elif kind in ('badchunk_json', 'oversize_json'):
+        env = environ_for(kind[:-5], name)
+        env['HTTP_ACCEPT'] = 'application/json'
     elif kind == 'm405':
         env.update(PATH_INFO='/plain/' + name, REQUEST_METHOD='DELETE')
     else:
@@ -325,8 +328,21 @@ def serve(app, env):
     return [rec.get('n'), rec.get('status'), sorted(map(list, rec.get('headers', []))), body.decode('latin1')]
 
 
+def fresh_config(config=None):
+    """A configuration whose error responses are not the process-wide shared objects of DefaultConfig.errors_map."""
+    from ombott import HTTPError
+    from ombott.request_pkg import errors as rqe
+    cfg = dict(config or {})
+    cfg['errors_map'] = {
+        rqe.RequestError: HTTPError(400, 'Bad request'),
+        rqe.BodySizeError: HTTPError(413, 'Request entity too large'),
+        rqe.BodyParsingError: HTTPError(400, 'Error while parsing chunked transfer body'),
+    }
+    return cfg
+
+
 def solo(kind, name, config=None):
-    return serve(make_app(config), environ_for(kind, name))
+    return serve(make_app(fresh_config(config)), environ_for(kind, name))
 
 
 def run_threads(app_of_thread, reqs, schedule, acc=None, line_files=None, record=True):
